@@ -211,6 +211,14 @@ func (g *rnsGen) spell(a string) string {
 }
 
 func (g *rnsGen) pickName() string {
+	// a name whose last live block is this one (height == Expires): the boundary every handler must agree on
+	if g.r.Intn(100) < 12 {
+		for _, n := range g.c.A.RnsKeeper.GetAllNames(g.c.Ctx()) {
+			if n.Expires == g.c.H || n.Expires == g.c.H+1 {
+				return n.Name + "." + n.Tld
+			}
+		}
+	}
 	// bias towards names that exist
 	if g.r.Intn(100) < 50 {
 		names := g.c.A.RnsKeeper.GetAllNames(g.c.Ctx())
@@ -448,8 +456,9 @@ func runRns(seed int64, histories, steps int, out *Emitter) {
 				if pgr == nil {
 					pgr = newPager(qr)
 				}
-				qst := c.rnsAbs(g.tracked)
+				extraAddrs = nil
 				q, resp, kind := rnsQueryStep(c, qr, pgr, g.actors)
+				qst := c.rnsAbs(g.tracked) // after the question: the address strings it names are canonicalised too
 				out.Emit(map[string]interface{}{"mod": "query", "sub": "rns", "hist": hi, "i": i, "h": c.H, "state": qst, "q": q, "resp": resp})
 				out.Count("query.rns."+kind, resp != "err")
 			}
